@@ -9,6 +9,7 @@ def run(ctx, rep):
     numeric.r16e(ctx, rep)
     numeric.r16f(ctx, rep)
     numeric.r16g(ctx, rep)
+    numeric.r16h(ctx, rep)
     tables.r11c(ctx, rep, rule="R16d")
     rep.obs = [o for o in rep.obs if not (o.rule == "R16d" and "scan_simple_token" in o.key)]
     rep.not_decided += ["float formatting/parsing (std and num behaviour)", "rational reduction",
